@@ -208,7 +208,8 @@ def sds_rate_ok(sr, got):
         return got >= 1
     if 10 ** 9 % sr == 0:
         return got == sr
-    return got in (10 ** 9 // p, -(-10 ** 9 // p))
+    # the period truncated (what the library does) or rounded to the nearest nanosecond, read back truncated or rounded up
+    return got in (10 ** 9 // p, -(-10 ** 9 // p), 10 ** 9 // (p + 1), -(-10 ** 9 // (p + 1)))
 
 
 def sds_dec3(b):
@@ -225,7 +226,7 @@ def sds_layout_problems(j, b, frames):
         out.append("fixed header fields %s" % b[:21].hex())
     if any(x & 0x80 for x in b[1:20]):
         out.append("a header data byte has bit 7 set: %s" % b[:21].hex())
-    if sds_dec3(b[7:10]) != (10 ** 9 // j.sr) % 2 ** 21:
+    if sds_dec3(b[7:10]) not in ((10 ** 9 // j.sr) % 2 ** 21, (10 ** 9 // j.sr + 1) % 2 ** 21):
         out.append("sample period field %d for %d Hz" % (sds_dec3(b[7:10]), j.sr))
     if sds_dec3(b[10:13]) != j.n % 2 ** 21 or sds_dec3(b[10:13]) != frames % 2 ** 21:
         out.append("data length field %d, %d frames written, %d reported" % (sds_dec3(b[10:13]), j.n, frames))
@@ -338,10 +339,14 @@ def run_sds(ctx, found=False):
         first = f.codec not in seen_fmt
         seen_fmt.add(f.codec)
         lens = [0, 1, 2, spb - 1, spb, spb + 1, 2 * spb, 2 * spb + 7, 3 * spb - 1, 128 * spb + 3 if first else 5]
+        if first and f.codec == 1:
+            lens.append(16384 + 5)          # all three 7-bit groups of the data-length field in use; packet numbers wrap at 128
         if not quick:
             lens += [4 * spb, 5 * spb + 1, 257 * spb]
         for n in lens:
             cuts = {0, n, rng.randrange(0, n + 1), (n // spb) * spb, max(0, (n // spb) * spb - 1), min(n, spb + 3)}
+            if n > 10000:
+                cuts = {rng.randrange(0, n + 1)}
             for a in sorted(cuts if (first or not quick) else list(cuts)[:2]):
                 jobs.append(SdsJob(f, rng.choice(rates), [a, n - a], rng.choice([0, 3, 99999]), rng.random() < 0.3, rng))
         if first:
@@ -370,6 +375,12 @@ def run_sds(ctx, found=False):
         pd = [small2.parse_dump(l) for l in pl if l.startswith("len=") and "hex=" in l]
         stats["twins"] += 1
         probs = sds_predicate(j, dumps, lines, pd[2] if len(pd) == 3 else None)
+        # each check reports the clauses of its own property: C11 the update images and the independence of the closed file from
+        # header updates, C07 that independence alone, C04 everything
+        if ctx.prop == "C11":
+            probs = [p for p in probs if p.startswith("[C11]")]
+        elif ctx.prop == "C07":
+            probs = [p for p in probs if "closed bytes differ" in p]
         diffs = []
         mrep = [small2.kv(r) for r in model[i].split(" | ")] if i < len(model) and model[i].startswith("img=") else []
         if len(mrep) != 3:
@@ -463,28 +474,28 @@ def run_sds(ctx, found=False):
         reported = True
         c11 = all(p.startswith("[C11]") for p in probs)
         text = "# %s violated on the implementation's own transcript (SDS container campaign)\n# format %s, %d Hz, frames per call %s, stale frames %d, header update %s\n# %s\n" % (
-            "C11" if c11 else "C04", j.f.name, j.sr, j.parts, j.stale, "in auto mode" if j.auto else "by SFC_UPDATE_HEADER_NOW after the first call", "; ".join(probs)[:1500])
+            ctx.prop if ctx.prop in ("C07", "C11") else ("C11" if c11 else "C04"), j.f.name, j.sr, j.parts, j.stale, "in auto mode" if j.auto else "by SFC_UPDATE_HEADER_NOW after the first call", "; ".join(probs)[:1500])
         sc = j.script()
         if any("closed bytes differ" in p for p in probs):
             sc += "# the same samples, one call, no header update:\n" + "\n".join("# " + l for l in j.script(stale=j.stale + 54321, tail=False, plain=True).split("\n")[:-1]) + "\n"
-        ctx.violation("c04-sds-%s" % name, text + "--- script\n" + sc)
+        ctx.violation("%s-sds-%s" % (ctx.prop.lower(), name), text + "--- script\n" + sc)
     if not reported and not found:
         if corr:
             j, name, diffs = corr[0]
             reported = True
-            ctx.violation("c04-sds-correspondence-%s" % name,
+            ctx.violation("%s-sds-correspondence-%s" % (ctx.prop.lower(), name),
                           "# correspondence stream 'SDS writer (Sf.SdsFile session) vs sds.c' no longer agrees: %d of %d sessions differ\n# first: %s\n# %s\n"
                           "# the C04 / C11 predicates hold on the implementation's own transcripts: no failing input found\n--- script\n%s" % (len(corr), stats["sessions"], name, "; ".join(diffs)[:1500], j.script()), no_input=True)
-        elif bad:
+        elif bad and ctx.prop == "C04":
             tag, m, il, ml = bad[0]
             reported = True
-            ctx.violation("c04-sds-parse-%s" % tag,
+            ctx.violation("%s-sds-parse-%s" % (ctx.prop.lower(), tag),
                           "# correspondence stream 'SDS reader (Sf.SdsFile.parse) vs sf_open' no longer agrees: %d of %d files differ\n# first: %s\n# implementation: %s\n# model: %s\n"
                           "# these are hand-mutated files; the C04 predicate speaks about files the library wrote and holds on them: no failing input found\n"
                           "observed-last %s\n--- script\nstore s0 %s\nopen h0 s0 r\n" % (len(bad), stats["parse_cases"], tag, il, ml, il.strip(), m.hex()), no_input=True)
         elif qbad:
             reported = True
-            ctx.violation("c04-sds-quant", "# the model's SDS rate quantiser disagrees with 10^9 / ((10^9 / rate) mod 2^21) at %d Hz: model %s\n" % qbad[0], no_input=True)
+            ctx.violation("%s-sds-quant" % ctx.prop.lower(), "# the model's SDS rate quantiser disagrees with 10^9 / ((10^9 / rate) mod 2^21) at %d Hz: model %s\n" % qbad[0], no_input=True)
     if jobs:
         ctx.sample({"kind": "sds session", "script": jobs[0].script()[:400], "model_request": jobs[0].model_line()[:300]})
     ctx._sds_debug = (corr, pred, bad, qbad, stats)
